@@ -43,7 +43,7 @@ func runShutdown(c *Ctx, cases *[]string) {
 	for i := 0; i < c.Scale(30, 300) && !giveUp("threadgroup-stress") && failedRuns["threadgroup"] == 0; i++ {
 		tgStress(c, c.R.U64())
 	}
-	for i := 0; i < c.Scale(10, 60) && !giveUp("rhp4-shutdown"); i++ {
+	for i := 0; i < c.Scale(16, 64) && !giveUp("rhp4-shutdown"); i++ {
 		rhp4Shutdown(c, c.R.U64(), i, cases)
 	}
 	for i := 0; i < c.Scale(8, 40) && !giveUp("wallet-shutdown"); i++ {
@@ -356,10 +356,19 @@ func rhp4Shutdown(c *Ctx, seed uint64, variant int, cases *[]string) {
 	for i := 0; i < k; i++ {
 		trace = append(trace, "LTgAdd true")
 	}
-	steps = append(steps, fmt.Sprintf("%d RPCs in flight, then Close", k))
+	listenerFirst, twice := (variant/4)%2 == 1, (variant/8)%2 == 1
+	steps = append(steps, fmt.Sprintf("%d RPCs in flight, then Close (Serve's listener closed first: %v, a second Close beside the first: %v)", k, listenerFirst, twice))
+	if listenerFirst {
+		l.Close() // siamux.Serve returns; the established transport and its handlers live on
+		time.Sleep(time.Duration(r.Intn(500)) * time.Microsecond)
+	}
 	closed := make(chan struct{})
+	closed2 := make(chan struct{})
 	t0 := time.Now()
 	go func() { rs.Close(); close(closed) }()
+	if twice {
+		go func() { rs.Close(); close(closed2) }()
+	}
 	// the server refuses new streams from the moment the group is closed; requests that slip in
 	// before that are in flight like the others
 	begun := false
@@ -395,10 +404,18 @@ func rhp4Shutdown(c *Ctx, seed uint64, variant int, cases *[]string) {
 		}
 	}
 	if k > 0 {
+		var c2 chan struct{}
+		if twice {
+			c2 = closed2
+		}
 		select {
 		case <-closed:
 			if _, live := bs.counts(); live > 0 {
 				fails = append(fails, failure{"rhp4-close-returned-with-live-handlers", fmt.Sprintf("Server.Close returned after %v while %d RPC handlers were still running", time.Since(t0), live)})
+			}
+		case <-c2:
+			if _, live := bs.counts(); live > 0 {
+				fails = append(fails, failure{"rhp4-close-returned-with-live-handlers", fmt.Sprintf("a second Server.Close, called while the first was waiting, returned after %v while %d RPC handlers were still running", time.Since(t0), live)})
 			}
 		case <-time.After(time.Duration(2+r.Intn(20)) * time.Millisecond):
 		}
@@ -423,6 +440,17 @@ func rhp4Shutdown(c *Ctx, seed uint64, variant int, cases *[]string) {
 			fails = append(fails, failure{"rhp4-inflight-rpc-lost", "an RPC that was in flight when Close was called never completed"})
 		}
 	}
+	// a Close beside the first and one more afterwards return as well
+	if len(fails) == 0 {
+		if !twice {
+			go func() { rs.Close(); close(closed2) }()
+		}
+		select {
+		case <-closed2:
+		case <-time.After(settleTimeout):
+			fails = append(fails, failure{"rhp4-close-deadlock", "a repeated Server.Close did not return"})
+		}
+	}
 	// afterwards: refused, and no handler goroutine left
 	if len(fails) == 0 {
 		select {
@@ -444,7 +472,7 @@ func rhp4Shutdown(c *Ctx, seed uint64, variant int, cases *[]string) {
 	if len(fails) == 0 {
 		*cases = append(*cases, tgCase(trace, true))
 	}
-	c.Res.Eval(fmt.Sprintf("rhp4|%d|%v", k, trace), k > 0)
+	c.Res.Eval(fmt.Sprintf("rhp4|%d|%v|%v|%v", k, trace, listenerFirst, twice), k > 0)
 	if variant == 1 {
 		c.Res.Sample(map[string]any{"section": "rhp4-shutdown", "script": steps, "labels": trace})
 	}
@@ -518,16 +546,26 @@ func walletShutdown(c *Ctx, seed uint64, variant int, cases *[]string) {
 		time.Sleep(time.Duration(r.Intn(2000)) * time.Microsecond)
 	}
 	trace = append(trace, "LTgAdd true")
-	steps = append(steps, fmt.Sprintf("Close (rebroadcast in progress: %v)", inflight))
+	twice := (variant/2)%2 == 1
+	steps = append(steps, fmt.Sprintf("Close (rebroadcast in progress: %v, a second Close beside the first: %v)", inflight, twice))
 	closed := make(chan struct{})
+	var closed2 chan struct{}
 	t0 := time.Now()
 	go func() { w.Close(); close(closed) }()
+	if twice {
+		closed2 = make(chan struct{})
+		go func() { w.Close(); close(closed2) }()
+	}
 	trace = append(trace, "LStopBegin")
 	if inflight {
 		select {
 		case <-closed:
 			if _, live := bws.counts(); live > 0 {
 				fails = append(fails, failure{"wallet-close-returned-with-rebroadcast-in-flight", fmt.Sprintf("Wallet.Close returned after %v while the rebroadcast loop was still inside the store", time.Since(t0))})
+			}
+		case <-closed2:
+			if _, live := bws.counts(); live > 0 {
+				fails = append(fails, failure{"wallet-close-returned-with-rebroadcast-in-flight", fmt.Sprintf("a second Wallet.Close, called while the first was waiting, returned after %v while the rebroadcast loop was still inside the store", time.Since(t0))})
 			}
 		case <-time.After(time.Duration(2+r.Intn(20)) * time.Millisecond):
 		}
